@@ -9,6 +9,7 @@ import (
 	"os/exec"
 	"path/filepath"
 	"regexp"
+	"runtime"
 	"sort"
 	"strconv"
 	"strings"
@@ -340,13 +341,17 @@ func (c *c11) compileUnit(u *unit, sel []*comp) {
 			continue
 		}
 		var r *emit.Result
-		if cp.T.Name == "go" {
+		if cp.T.Name == "go" && cp.S.Bare {
+			cp.OutDir = filepath.Join(c.base, "gobare", strconv.Itoa(cp.ID), "gen")
+			r = c.runCompiler("", u.Dir, 60*time.Second, "-gen", "go:"+cp.S.Opts, "-r", "-out", cp.OutDir, u.Root)
+		} else if cp.T.Name == "go" {
+			opts := strings.ReplaceAll(cp.S.Opts, "{SUB}", cp.GoSub)
 			c.load.RLock()
-			r = cp.H.Gen(cp.GoSub, u.Dir, u.Root, cp.S.Opts, cp.S.Extra...)
+			r = cp.H.Gen(cp.GoSub, u.Dir, u.Root, opts, cp.S.Extra...)
 			c.load.RUnlock()
 			if r.TimedOut {
 				c.load.Lock()
-				r = cp.H.Gen(cp.GoSub, u.Dir, u.Root, cp.S.Opts, cp.S.Extra...)
+				r = cp.H.Gen(cp.GoSub, u.Dir, u.Root, opts, cp.S.Extra...)
 				c.load.Unlock()
 			}
 			cp.OutDir = filepath.Join(cp.H.Dir, "gen", cp.GoSub)
@@ -535,6 +540,17 @@ func (c *c11) oracles() {
 	}
 	// Go: build + vet per harness module, a few modules at a time
 	gosem := make(chan struct{}, 3)
+	for _, cp := range c.comps {
+		if cp.OK && cp.S.Bare {
+			wg.Add(1)
+			go func(cp *comp) {
+				defer wg.Done()
+				gosem <- struct{}{}
+				defer func() { <-gosem }()
+				c.goBareOracle(cp)
+			}(cp)
+		}
+	}
 	for _, h := range c.harnesses {
 		wg.Add(1)
 		go func(h *emit.Harness) {
@@ -556,6 +572,76 @@ func (c *c11) goTool(h *emit.Harness, args ...string) (string, error) {
 	cmd.Env = append(os.Environ(), "GOFLAGS=-mod=mod", "GOPROXY=off", "GOSUMDB=off", "GOTOOLCHAIN=local")
 	b, err := cmd.CombinedOutput()
 	return string(b), err
+}
+
+// goBareOracle type-checks Go emitted with package_prefix= (empty).  The
+// packages import each other by bare names ("base", "a/b"), so every top-level
+// directory of the output becomes a dot-less module of its own that a scratch
+// main module requires and replaces; go build / go vet then resolve the bare
+// import paths exactly as written.
+func (c *c11) goBareOracle(cp *comp) {
+	run := c.run
+	root := filepath.Dir(cp.OutDir)
+	ents, err := os.ReadDir(cp.OutDir)
+	if err != nil {
+		c.fail("emitted-code-rejected", cp, "go target exited 0 without output", err.Error(), "")
+		return
+	}
+	var mods []string
+	for _, e := range ents {
+		if !e.IsDir() {
+			continue
+		}
+		if _, err := os.Stat(filepath.Join(runtime.GOROOT(), "src", e.Name())); err == nil {
+			run.Add("go_empty_prefix_skipped(package name shadows the standard library)", 1)
+			return
+		}
+		mods = append(mods, e.Name())
+	}
+	sort.Strings(mods)
+	gomod := "module vhbare\n\ngo 1.20\n\nrequire (\n\tgithub.com/Workiva/frugal/lib/go v0.0.0\n\tgithub.com/apache/thrift v0.19.0\n"
+	for _, m := range mods {
+		gomod += "\t" + m + " v0.0.0\n"
+	}
+	gomod += ")\n\nreplace github.com/Workiva/frugal/lib/go => " + ev.RepoDir() + "/lib/go\n"
+	var patterns []string
+	for _, m := range mods {
+		gomod += "replace " + m + " => ./gen/" + m + "\n"
+		os.WriteFile(filepath.Join(cp.OutDir, m, "go.mod"), []byte("module "+m+"\n\ngo 1.20\n"), 0o644)
+		patterns = append(patterns, m+"/...")
+	}
+	os.WriteFile(filepath.Join(root, "go.mod"), []byte(gomod), 0o644)
+	var sum []byte
+	for _, f := range []string{filepath.Join(ev.RepoDir(), "go.sum"), filepath.Join(ev.RepoDir(), "lib/go/go.sum"), filepath.Join(ev.Root(), "go.sum.extra"), filepath.Join(ev.Root(), "go.sum")} {
+		b, _ := os.ReadFile(f)
+		sum = append(sum, b...)
+		if len(b) > 0 && b[len(b)-1] != '\n' {
+			sum = append(sum, '\n')
+		}
+	}
+	os.WriteFile(filepath.Join(root, "go.sum"), sum, 0o644)
+	h := &emit.Harness{Dir: root, Module: "vhbare"}
+	n := len(listFiles(cp.OutDir, ".go"))
+	for _, tool := range []string{"build", "vet"} {
+		out, err := c.goTool(h, append([]string{tool}, patterns...)...)
+		run.Add("files_checked:go("+tool+",empty package_prefix)", n)
+		if err == nil {
+			continue
+		}
+		var lines []string
+		for _, l := range strings.Split(out, "\n") {
+			l = strings.TrimSpace(l)
+			if l != "" && !strings.HasPrefix(l, "#") && len(lines) < 6 {
+				lines = append(lines, strings.TrimPrefix(l, "gen/"))
+			}
+		}
+		diagClass := "emitted-code-rejected"
+		if tool == "vet" {
+			diagClass = "emitted-code-vet"
+		}
+		c.fail(diagClass, cp, "Go emitted with an empty package_prefix does not pass go "+tool+" (bare import paths mapped to dot-less scratch modules)", strings.Join(lines, "\n"), "")
+		return
+	}
 }
 
 // goOracle type-checks every emitted Go package of a harness module against
